@@ -101,7 +101,21 @@ func rawPush[T any](c chan T, v T) {
 // the buffer is full, like time.Ticker).
 func RawPush[T any](c chan T, v T) { rawPush(c, v) }
 
+// Sender wraps the channel of a send so that the element type is inferred
+// from the channel alone (`c <- v` becomes vsched.To(c).Send(v), and v is
+// converted by ordinary assignability, e.g. a string sent on a chan any).
+type Sender[T any] struct{ c chan<- T }
+
+// To starts a send on c.
+func To[T any](c chan<- T) Sender[T] { return Sender[T]{c} }
+
 // Send is `c <- v`.
+func (sd Sender[T]) Send(v T) { Send(sd.c, v) }
+
+// Case builds a send case for Select.
+func (sd Sender[T]) Case(v T) *SCase[T] { return SendCase(sd.c, v) }
+
+// Send is `c <- v` when the value already has the channel's element type.
 func Send[T any](c chan<- T, v T) {
 	if !Active() {
 		if s.teardown {
@@ -144,7 +158,7 @@ func Recv2[T any](c <-chan T) (T, bool) {
 		return v, ok
 	}
 	st := state(c, cap(c))
-	point("recv", st.canRecv)
+	pointObj("recv", chanKey(c), st.canRecv)
 	if s.teardown {
 		return zero, false
 	}
